@@ -13,7 +13,7 @@ P = {
  "C02": dict(
   technique="random AST documents (ground truth by construction) and junk/mutated documents (reference model R1-R5) compared with clean: deletion-only + every outside non-whitespace character present in order",
   text="Exploration with two independent oracles (construction and a naive reference model) over structured and junk documents, all delimiter spellings and independent readiness per element.",
-  note="Documents whose tags fall outside the documented tag grammar, or whose ready unwrap-block tags share a line with code, are outside the oracle's domain and counted as excluded.",
+  note="Documents whose tags fall outside the documented tag grammar, or whose ready unwrap-block tags share a line with code, are outside the oracle's domain and counted as excluded. A sub-check with hand-built documents (hundreds of never-closed tag-like tokens around ready elements; elements that miss readiness narrowly) is judged by the same reference model.",
   ref="6/C02"),
  "C03": dict(
   technique="same generated cases as C02; oracle nonws(out) == nonws(input minus removable extents) plus per-element #id markers that must vanish / survive",
@@ -78,7 +78,7 @@ P = {
  "C15": dict(
   technique="random AST documents; by-construction expected Ready regions vs list (JSON line ranges, highlighted text of the pretty form), cross-checked against clean; purity by repeated calls",
   text="Exploration with by-construction regions; the listing is tied to what clean deletes via the non-whitespace text.",
-  note="Domain as stated in the property (tags off wrapper lines, wrapper lines non-empty code, first byte not a line break).",
+  note="Domain as stated in the property (tags off wrapper lines, wrapper lines non-empty code, first byte not a line break). Extra sub-checks: long files (regions far down, on the last line with / without a final line break) and the process environment (NO_COLOR, TERM, LANG, TZ, ... set around repeated calls).",
   ref="6/C15"),
  "C16": dict(
   technique="rendering rule re-derived from the source for every item of list and list_all (line set, per-line numbers, fixed-width number column read off the output, tab expansion, marker columns with tab = 4), strict JSON shape, pretty-vs-JSON agreement after stripping SGR colour codes",
